@@ -476,10 +476,10 @@ def run_shard(ctx: Ctx, rec: Recorder) -> None:
                             for oi, o in enumerate(ALL_OUTCOMES):
                                 for disposal in DISPOSALS if not preload else ("data", "close", "release-unread"):
                                     idx += 1
-                                    if not ctx.mine(idx) or (idx // ctx.nshards) % stride:
+                                    if not ctx.mine(idx) or ctx.skip(idx, stride):
                                         continue
                                     cfg = {"kind": kind, "maxsize": maxsize, "block": block, "retries": retries, "preload": preload, "release_conn": release}
-                                    case = {"cfg": cfg, "requests": [{"method": "POST" if oi % 3 == 0 else "GET", "attempts": [dict(o)], "disposal": disposal, "dispose_when": "now"}, {"method": "GET", "attempts": [], "disposal": "read", "dispose_when": "now"}], "shape": "single-fault", "lease_probe": (idx // ctx.nshards) % 4 == 0}
+                                    case = {"cfg": cfg, "requests": [{"method": "POST" if oi % 3 == 0 else "GET", "attempts": [dict(o)], "disposal": disposal, "dispose_when": "now"}, {"method": "GET", "attempts": [], "disposal": "read", "dispose_when": "now"}], "shape": "single-fault", "lease_probe": (not ctx.skip(idx, 4))}
                                     rec.case(["single", cfg, oi, disposal])
                                     run_case(rec, case)
                                     rec.seen("fault_points", f"{o['k']}:{o.get('err', o.get('status'))}:{o.get('at', '')}:{'bodyfault' if 'body_fault' in o else ''}")
